@@ -15,7 +15,11 @@ ASSUMPTIONS = ["the real snarkjsbackend.prove() is run in a scratch directory; t
                "directly installed traces go through the backend's own entry points pubval()/privval()/add_constraint(); staged traces "
                "(2-4 exports of one growing trace in one process and one directory: stages that add wires and constraints, only wires, "
                "only constraints, or nothing) are judged after every export; a file that is absent after prove(), or byte-identical to "
-               "the previous export although the trace grew, is reported (files-not-written / stale-files)"]
+               "the previous export although the trace grew, is reported (files-not-written / stale-files)",
+               "sequences of INDEPENDENT runs in one working directory (trace cleared between runs; a bigger circuit followed by a smaller "
+               "one, equal and growing sizes; random bytes or a longer file beginning like a valid export present under either name before "
+               "the first run): after every run both files must be byte-identical to the export of the same trace into an empty directory "
+               "(differs-from-fresh-run) and decode without trailing bytes; read-only or non-regular pre-existing files are not driven"]
 PARTIAL = []
 P = common.BN128
 GOLDILOCKS = 2 ** 64 - 2 ** 32 + 1
@@ -74,6 +78,69 @@ def staged_traces(rnd, n, p=P, tag="s"):
     return out
 
 
+SEQ_SHAPES = [("big", "small"), ("big", "small"), ("small", "big", "small"), ("big", "mid", "small"), ("mid", "mid"),
+              ("small", "big"), ("big", "empty"), ("mid", "small", "big", "small")]
+SEQ_PRE = ["none", "none", "garbage-longer", "garbage-longer-wtns", "garbage-longer-r1cs", "garbage-shorter", "valid-looking-longer"]
+
+
+def one_trace(rnd, p, size):
+    lo, hi = {"empty": (0, 0), "small": (0, 2), "mid": (2, 4), "big": (5, 12)}[size]
+    npub = rnd.randrange(lo, hi + 1); npriv = rnd.randrange(lo, hi + 1)
+    ncons = 0 if size == "empty" else rnd.randrange(lo, hi + 1)
+    return {"pub": [rand_val(rnd, p) for _ in range(npub)], "priv": [rand_val(rnd, p) for _ in range(npriv)],
+            "cons": rand_cons(rnd, p, npub, npriv, ncons)}
+
+
+def sequence_traces(rnd, n, p=P, tag="q"):
+    """SEQUENCES of independent runs in one working directory (successive scripts started in the same place): a bigger circuit
+    followed by a smaller one, equal sizes, growing sizes, and files that exist before the first run (random bytes longer / shorter
+    than the export, for both names or one; a longer file that begins like a valid export)"""
+    import json
+    out = []
+    for i in range(n):
+        shape = SEQ_SHAPES[i % len(SEQ_SHAPES)] if i < len(SEQ_SHAPES) else rnd.choice(SEQ_SHAPES)
+        prek = SEQ_PRE[(i // 2) % len(SEQ_PRE)] if i < 2 * len(SEQ_PRE) else rnd.choice(SEQ_PRE)
+        pre = {}
+        if prek.startswith("garbage"):
+            size = rnd.randrange(1, 40) if prek == "garbage-shorter" else rnd.randrange(2500, 6000)
+            for name in ("witness.wtns", "circuit.r1cs"):
+                if prek.endswith("wtns") and name != "witness.wtns" or prek.endswith("r1cs") and name != "circuit.r1cs":
+                    continue
+                pre[name] = rnd.randbytes(size).hex()
+        elif prek == "valid-looking-longer":
+            pre = {"witness.wtns": (b"wtns" + (2).to_bytes(4, "little") * 2 + rnd.randbytes(4000)).hex(),
+                   "circuit.r1cs": (b"r1cs" + (1).to_bytes(4, "little") + (3).to_bytes(4, "little") + rnd.randbytes(4000)).hex()}
+        out.append((f"JQ|{tag}{i}|{p}|" + json.dumps({"pre": pre, "runs": [one_trace(rnd, p, z) for z in shape]}), prek, pre))
+    return out
+
+
+def sequence_kind(k, prek, before, fresh):
+    """what the run's export met in the directory, by file sizes (never by content): part of the violation signature"""
+    if not before:
+        return "into-empty-directory"
+    longer = [n for n in ("witness.wtns", "circuit.r1cs") if n in before and n in fresh and len(before[n]) > len(fresh[n])]
+    return ("over-longer-" if longer else "over-shorter-or-equal-") + ("pre-existing-files" if k == 0 else "earlier-export")
+
+
+def fresh_run_clause(files, fresh, before):
+    """direct oracle for sequences: the directory after the run holds exactly the bytes the same trace gives in an empty directory"""
+    for name in ("witness.wtns", "circuit.r1cs"):
+        a, b = files.get(name), fresh.get(name)
+        if a is None or b is None or a == b:
+            continue
+        a, b = bytes.fromhex(a), bytes.fromhex(b)
+        k = next((i for i in range(min(len(a), len(b))) if a[i] != b[i]), min(len(a), len(b)))
+        old = bytes.fromhex(before.get(name, ""))
+        tail = (f"; bytes {len(b)}.. are the tail of the file that was there before the run ({len(old)} bytes)"
+                if a[:len(b)] == b and len(old) == len(a) and old[len(b):] == a[len(b):] else "")
+        return [("differs-from-fresh-run", f"{name} is {len(a)} bytes after prove() in a directory that already held a {len(old)}-byte "
+                 f"{name}; the same trace exported into an empty directory gives {len(b)} bytes; first difference at offset {k}{tail}")]
+    extra = sorted(set(files) - set(fresh) - set(before) - {"!raised"})
+    if extra:
+        return [("differs-from-fresh-run", f"files {extra} appear only when the directory was not empty")]
+    return []
+
+
 def parse_trace(f):
     pubs = [int(x) for x in f[3].split(",") if x]; privs = [int(x) for x in f[4].split(",") if x]
     cons = []
@@ -90,7 +157,8 @@ def byte_class(p):
     return f"{(p.bit_length() + 7) // 8}-byte-prime"
 
 
-def judge(ex, line, src, status, p, trace_fields, files, model_line, stage=None, prev_files=None, prev_trace=None):
+def judge(ex, line, src, status, p, trace_fields, files, model_line, stage=None, prev_files=None, prev_trace=None, fresh=None,
+          before=None):
     """one export: bytes vs the model's encoder, then the independent decoder's clauses; returns the list of (clause, message)"""
     pubs, privs, cons = parse_trace(trace_fields)
     wt_hex, r1_hex = files.get("witness.wtns"), files.get("circuit.r1cs")
@@ -100,6 +168,10 @@ def judge(ex, line, src, status, p, trace_fields, files, model_line, stage=None,
         ex.disagreements.append({"case": line[:3000], "stage": stage, "what": f"bytes of {which} differ from the model's encoder"})
     else:
         ex.traces_validated += 1
+    if fresh is not None and "!raised" not in files:
+        d = fresh_run_clause(files, fresh, before or {})
+        if d:
+            return d
     if "!raised" in files:
         return [("export-raised", "prove() raised " + bytes.fromhex(files["!raised"]).decode(errors="replace")[:200])]
     missing = [n for n, h in (("witness.wtns", wt_hex), ("circuit.r1cs", r1_hex)) if h is None]
@@ -130,7 +202,9 @@ def explore(ctx, extended=False, focus=None):
     ex.rule = ("(a) programs over the public API traced on the real snarkjs backend, then prove(); (b) traces installed through "
                "pubval/privval/add_constraint with witness values / coefficients from {0, +-1, p-1, p, p+1, 2p, -p, 2^256-1, 2^256, "
                ">2^256, random}, empty and zero-coefficient linear combinations; (c) staged traces: 2-4 exports of one growing trace in "
-               "one process (stages adding wires+constraints / wires only / constraints only / nothing); (b), (c) for primes of 1, 3, 8, "
+               "one process (stages adding wires+constraints / wires only / constraints only / nothing); (d) sequences of 2-4 independent "
+               "runs in one directory (big then small, equal, growing; longer / shorter garbage files present beforehand), each compared "
+               "byte for byte with the same trace exported into an empty directory; (b), (c), (d) for primes of 1, 3, 8, "
                "16, 24, 31 and 32 bytes, (a) for 16-, 31- and 32-byte primes; for each export: bytes of both files vs the Lean encoder "
                "run on the recorded trace, and the independent decoder's checks (well-formedness with the element width taken from the "
                "header, canonical elements, decode = trace, satisfaction transfer); distinct = distinct (source, prime width, #pub, "
@@ -147,6 +221,11 @@ def explore(ctx, extended=False, focus=None):
         staged += staged_traces(ctx.rnd, max(8, n // (4 * len(FIELDS))), p=fp, tag=f"s{k}_")
     lines += [l for l, _ in staged]
     kinds_of = {l.split("|")[1]: k for l, k in staged}
+    seqs = []
+    for k, fp in enumerate(FIELDS):
+        seqs += sequence_traces(ctx.rnd, max(16 if fp == P else 4, n // (6 * len(FIELDS))), p=fp, tag=f"q{k}_")
+    lines += [l for l, _, _ in seqs]
+    pre_of = {l.split("|")[1]: (prek, pre) for l, prek, pre in seqs}
     w = common.Worker("snarkjs", "worker_files.py")
     try:
         outs = w.run(lines)
@@ -159,6 +238,15 @@ def explore(ctx, extended=False, focus=None):
         if len(f) < 4 or f[1] == "harness-error":
             raise common.Infra(o[:600])
         p = int(f[2])
+        if line.startswith("JQ|"):
+            prek, before = pre_of[f[0]]
+            for k, st in enumerate(json.loads(o.split("|", 3)[3])):
+                tf = [f[0], f[1], f[2]] + st["trace"].split("|")
+                recs.append((line, "sequence", f[1], p, tf, st["files"], k + 1, None, None,
+                             (sequence_kind(k, prek, before, st["fresh"]), st["fresh"], before)))
+                jl.append(f"J|{f[0]}_{k}|{p}|{st['trace']}")
+                before = {n: h for n, h in st["files"].items() if n != "!raised"}
+            continue
         if line.startswith("JS|"):
             prev_files = prev_trace = None
             for k, st in enumerate(json.loads(o.split("|", 3)[3])):
@@ -178,21 +266,28 @@ def explore(ctx, extended=False, focus=None):
         classes = tuple(sorted({value_class(v, p) for v in pubs + privs}))
         ex.distinct.add((src, byte_class(p), len(pubs), len(privs), len(cons), classes))
         ex.count(f"source:{src}"); ex.count(f"field:{byte_class(p)}")
-        if stage:
+        fresh = before = None
+        if src == "sequence":
+            skind, fresh, before = skind
+            ex.count(f"sequence:{skind}")
+        elif stage:
             ex.count(f"stage:{'first' if stage == 1 else skind}")
         for c in classes:
             ex.count(f"witness-class:{c}")
-        bad = judge(ex, line, src, status, p, tf, files, m, stage, prev_files, prev_trace)
+        bad = judge(ex, line, src, status, p, tf, files, m, stage, prev_files, prev_trace, fresh, before)
         for clause, msg in bad:
             sig = {"clause": clause, "field": "32-byte-prime" if byte_class(p) == "32-byte-prime" else "narrower-prime"}
-            if stage:
+            if src == "sequence":
+                sig["export"] = "sequence:" + skind
+            elif stage:
                 sig["export"] = "first" if stage == 1 else "repeated:" + skind
-            payload = {"line": line[:20000]}
+            payload = {"line": line[:80000]}
             if stage:
                 payload["stage"] = stage
             if clause in ("files-not-written", "export-raised") and src == "program" and last_program_line:
                 payload["previous_line_in_the_same_process"] = last_program_line[:5000]
-            ex.violations.append(Violation(sig, f"{clause}: {msg}" + (f" [export #{stage} of a staged trace, prime of {byte_class(p)[:-6]}]" if stage else
+            ex.violations.append(Violation(sig, f"{clause}: {msg}" + (f" [run #{stage} of a sequence of independent runs in one directory ({skind}), prime of {byte_class(p)[:-6]}]" if src == "sequence" else
+                                                                      f" [export #{stage} of a staged trace, prime of {byte_class(p)[:-6]}]" if stage else
                                                                       f" [prime of {byte_class(p)[:-6]}]"), payload))
         if src == "program":
             last_program_line = line
